@@ -91,7 +91,8 @@ SUPPORT = {
     "S": "#[derive(Debug, Clone, Copy, PartialEq)] pub struct S { pub a: i32 }",
 }
 
-PLAIN_NAMES = ["a", "b", "c", "d", "e", "f", "g", "h", "k", "m", "p", "q", "r", "s", "t", "u", "v", "w", "x", "y", "z"]
+PLAIN_NAMES = ["a", "b", "c", "d", "e", "f", "g", "h", "k", "m", "p", "q", "r", "s", "t", "u", "v", "w", "x", "y", "z"] + \
+    ["a%s" % ch for ch in "abcdefghijklmnopqrtuvwxyz"] + ["b%s" % ch for ch in "abcdefghijklmnop"]
 
 
 class Param:
